@@ -12,5 +12,6 @@ CONSTANTS
   AtomicNew = TRUE
   AtomicLine = FALSE
   ObjCid = TRUE
+  Sink <- KeepAll
 INVARIANTS WholeLines
 CHECK_DEADLOCK FALSE
